@@ -1,0 +1,8 @@
+//go:build !verif
+// +build !verif
+
+package geometry
+
+// verifSite is the decision-site tracer used by the /verif harness; without
+// the "verif" build tag it is an empty function that the compiler inlines away.
+func verifSite(n int) {}
